@@ -26,9 +26,25 @@ Definition check (c : case) : bool :=
       forallb blob_ok (c_blobs c)
   end.
 
-Fixpoint mismatches_from (i : nat) (cs : list case) : list nat :=
+(* the head ladder of the root manifest copy (Model/C14_Head.v): requests observed for the tagged source/target manifest *)
+From Verif Require Import Model.C14_Head.
+Definition hcode (a : hact) : nat := match a with AHeadTgt => 0 | AHeadSrc => 1 | AGetSrcMan => 2 end.
+Fixpoint nat_list_eqb (a b : list nat) : bool :=
+  match a, b with [], [] => true | x :: a', y :: b' => Nat.eqb x y && nat_list_eqb a' b' | _, _ => false end.
+Inductive xcase :=
+| XC (c : case)
+| XH (tgt known : option nat) (src : nat) (fast force refs dtags tl : bool) (obs : list nat) (skipped : bool).
+Definition xcheck (x : xcase) : bool :=
+  match x with
+  | XC c => check c
+  | XH tgt known src fast force refs dtags tl obs skipped =>
+      let '(acts, sk) := head_ladder tgt known src fast force refs dtags tl in
+      nat_list_eqb (map hcode acts) obs && Bool.eqb sk skipped
+  end.
+
+Fixpoint mismatches_from (i : nat) (cs : list xcase) : list nat :=
   match cs with
   | [] => []
-  | c :: cs' => if check c then mismatches_from (S i) cs' else i :: mismatches_from (S i) cs'
+  | c :: cs' => if xcheck c then mismatches_from (S i) cs' else i :: mismatches_from (S i) cs'
   end.
 Definition mismatches := mismatches_from 0.
